@@ -332,7 +332,20 @@ fn policy_op(kind: u8) -> u64 {
     let preimages: Vec<(sha256::Hash, Preimage32)> = (0..3u8).map(|i| (<sha256::Hash as elements::bitcoin::hashes::Hash>::hash(&[i; 32]), [i; 32])).collect();
     let pk = |i: usize| Policy::<Pk>::Key(keys[i].0);
     let sha = |i: usize| Policy::<Pk>::Sha256(preimages[i].0);
-    let policy: Policy<Pk> = match kind % 7 {
+    // what this satisfier knows: a seeded subset of the three signatures and three preimages
+    // (bits 0-2 / 3-5); the all-knowing satisfier keeps a third of the draws
+    let sel = (kind / 10) as u32;
+    // (a satisfier that lacks one or two credentials: the realistic way for two users of one
+    // policy template to differ)
+    let mask: u32 = if sel % 3 == 0 { 0x3f } else { 0x3f & !(1 << (sel % 6)) & !(1 << ((sel / 6) % 6)) };
+    let or = |a: Policy<Pk>, b: Policy<Pk>| Policy::<Pk>::Or { left: Arc::new(a), right: Arc::new(b) };
+    let and = |a: Policy<Pk>, b: Policy<Pk>| Policy::<Pk>::And { left: Arc::new(a), right: Arc::new(b) };
+    let policy: Policy<Pk> = match kind % 10 {
+        // nested disjunctions and thresholds that share sub-fragments across kinds: which branch is
+        // taken (and so the witness, the pruned program and its roots) depends on the satisfier
+        7 => or(or(pk(0), sha(1)), and(sha(2), sha(0))),
+        8 => Policy::Threshold(2, vec![or(pk(0), sha(1)), pk(1), sha(2)]),
+        9 => or(and(pk(2), sha(0)), or(pk(0), sha(1))),
         0 => pk(0),
         1 => Policy::And { left: Arc::new(pk(0)), right: Arc::new(sha(1)) },
         2 => Policy::Or { left: Arc::new(pk(1)), right: Arc::new(Policy::Unsatisfiable(FailEntropy::ZERO)) },
@@ -345,7 +358,11 @@ fn policy_op(kind: u8) -> u64 {
     let commit = policy.commit();
     let commit_bytes = commit.to_vec_without_witness();
     let sat = types::Context::with_context(|ctx| {
-        let satisfier = DetSatisfier { ctx, keys: keys.clone(), preimages: preimages.clone() };
+        let satisfier = DetSatisfier {
+            ctx,
+            keys: keys.iter().enumerate().filter(|(i, _)| mask & (1 << i) != 0).map(|(_, k)| *k).collect(),
+            preimages: preimages.iter().enumerate().filter(|(i, _)| mask & (8 << i) != 0).map(|(_, p)| *p).collect(),
+        };
         match policy.satisfy(&satisfier, &env) {
             Ok(prog) => {
                 let mut mac = BitMachine::for_program(&prog).expect("bounds");
@@ -1030,6 +1047,7 @@ fn gen_plan(r: &mut Rng, tier: Tier, out: &mut RunOut) -> Plan {
     let wide = r.chance(1, 8);
     let n_threads = if wide { r.urange(8, 16) } else { r.urange(2, 4) };
     let mut w: [u32; 16] = [5, 3, 3, 5, 4, 4, 6, 5, 4, 3, 2, 2, 3, 4, 4, 5];
+    let mut policy_kind: Option<u8> = None;
     for x in w.iter_mut() {
         if r.chance(1, 5) {
             *x = 0;
@@ -1037,6 +1055,19 @@ fn gen_plan(r: &mut Rng, tier: Tier, out: &mut RunOut) -> Plan {
     }
     if w.iter().all(|x| *x == 0) {
         w[0] = 1;
+    }
+    // storms: every thread runs operations of ONE kind, so that whatever process-wide state that
+    // entry point keeps is hit by a crowd (policy satisfaction with differing satisfiers, execution,
+    // pruning, decoding, roots, human encoding, building, values)
+    if r.chance(1, 4) {
+        let fam = *r.pick(&[10usize, 10, 10, 6, 7, 0, 3, 11, 8, 12]);
+        w = [0; 16];
+        w[fam] = 1;
+        out.count("storm_workloads", 1);
+        if fam == 10 {
+            // one policy template, many satisfiers
+            policy_kind = Some(*r.pick(&[7u8, 8, 9, 3, 4, 7, 9]));
+        }
     }
     let ns = shared.len().max(1);
     let mut threads = Vec::new();
@@ -1055,7 +1086,10 @@ fn gen_plan(r: &mut Rng, tier: Tier, out: &mut RunOut) -> Plan {
                 7 => Op::Prune(r.usize_below(ns)),
                 8 => Op::Build(r.next_u64(), r.urange(3, 14), if r.bool() { Family::Core } else { Family::Elements }),
                 9 => Op::IllTyped(r.byte()),
-                10 => Op::Policy(r.byte()),
+                10 => match policy_kind {
+                    Some(k) => Op::Policy(k + 10 * r.below(25) as u8),
+                    None => Op::Policy(r.byte()),
+                },
                 11 => Op::Human(r.usize_below(8)),
                 12 => Op::Values(r.next_u64()),
                 13 => Op::DropShared(r.usize_below(ns)),
@@ -1265,7 +1299,14 @@ impl Engine for C20 {
     }
     fn assumptions(&self) -> Vec<String> {
         vec![
-            "shuttle interleaves only at the primitives it owns: the context Mutex, NEXT_ID, the thread-local type tables, thread spawn/join and the hook yield points in the iterative drops; an FFI call into libsimplicity/secp256k1 is one atomic step".into(),
+            format!(
+                "shuttle interleaves only at the primitives it owns: {}; thread spawn/join and the hook yield points in the iterative drops; an FFI call into libsimplicity/secp256k1 is one atomic step",
+                if std::env::var("VERIF_SHUTTLE_SOURCES").as_deref() == Ok("plain") {
+                    "the hand-twinned ones (context Mutex, NEXT_ID, thread-local type tables) — this build used /repo/src as it is because the copy with redirected std primitives did not compile"
+                } else {
+                    "every std::sync Mutex / RwLock / Condvar / Once / Barrier / mpsc / atomic and every thread_local! in the library's Rust sources (this build compiled a copy of /repo/src with those redirected to shuttle's twins, regenerated from the working tree)"
+                }
+            ),
             "std::sync::Arc reference counting itself is not modelled (shuttle::sync::Arc is std's Arc); OnceLock in node/display.rs stays std's".into(),
             "error text is excluded from digests (free-variable names carry the global counter by design); error class is compared".into(),
             "the Miri leg (separate binary, jet-free workloads) covers unsynchronised accesses that shuttle cannot see".into(),
@@ -1274,8 +1315,8 @@ impl Engine for C20 {
     fn components(&self) -> Json {
         json!({
             "real": ["all of simplicity-lang compiled from /repo with feature verif-shuttle", "simplicity-sys C code (jets, environment, allocator shims) as atomic steps"],
-            "stub": ["Mutex / MutexGuard, AtomicUsize, thread_local!, thread::spawn/join = shuttle's", "scheduler: seeded RandomScheduler / PctScheduler"],
-            "model": ["sequential execution of the same operations inside the same shuttle execution"],
+            "stub": ["std::sync::{Mutex, RwLock, Condvar, Once, Barrier, mpsc, atomic::*}, thread_local!, thread::spawn/join = shuttle's (textual redirection of a copy of /repo/src at check time; hand-twinned imports in types/context.rs, variable.rs, precomputed.rs)", "scheduler: seeded RandomScheduler / PctScheduler"],
+            "model": ["sequential execution of the same operations in a fresh process"],
         })
     }
     fn n_runs(&self, tier: Tier) -> u64 {
@@ -1340,6 +1381,7 @@ impl Engine for C20 {
     fn expected_probes(&self, _tier: Tier) -> Vec<&'static str> {
         vec![
             "schedules_interleaved",
+            "storm_workloads",
             "op_exec",
             "op_prune",
             "op_policy",
